@@ -269,7 +269,7 @@ Proof.
     unfold union_schema, conv_row in *. cbn [combine map conforms fst snd].
     rewrite (IH b r ltac:(lia) H2 C2), andb_true_r.
     unfold conforms_col in *. apply andb_prop in C1. destruct C1 as [T N]. cbn [union_col c_ty c_nullable fst snd] in *.
-    rewrite (holds_sound _ _ _ Ha T), conv_notnull. cbn [andb]. destruct (c_nullable ca); [reflexivity|]. cbn in *. rewrite N. apply orb_true_r.
+    rewrite (holds_sound _ _ _ Ha T), conv_notnull. cbn [andb]. destruct (c_nullable ca), (c_nullable cb); cbn in *; try reflexivity; exact N.
 Qed.
 Lemma union_right_conform : forall a b r, length a = length b ->
   forallb (fun p => holds (c_ty (fst p)) (c_ty (union_col p)) && holds (c_ty (snd p)) (c_ty (union_col p))) (combine a b) = true ->
@@ -282,7 +282,7 @@ Proof.
     unfold union_schema, conv_row in *. cbn [combine map conforms fst snd].
     rewrite (IH b r ltac:(lia) H2 C2), andb_true_r.
     unfold conforms_col in *. apply andb_prop in C1. destruct C1 as [T N]. cbn [union_col c_ty c_nullable fst snd] in *.
-    rewrite (holds_sound _ _ _ Hb T), conv_notnull. cbn [andb]. destruct (c_nullable cb); [apply orb_true_r|]. cbn in *. rewrite N. apply orb_true_r.
+    rewrite (holds_sound _ _ _ Hb T), conv_notnull. cbn [andb]. destruct (c_nullable ca), (c_nullable cb); cbn in *; try reflexivity; exact N.
 Qed.
 
 (* aggregates under the correct rule *)
@@ -307,8 +307,8 @@ Proof.
   intros A E. unfold conforms_col. cbn [c_ty c_nullable]. destruct a; cbn [agg_val agg_ty agg_nullable] in *.
   - destruct (fit I64 _) as [w|] eqn:F; [|discriminate]. injection E as <-. apply fit_typed in F. destruct F as [T N]. rewrite T, N. reflexivity.
   - destruct (col_vals i rows); [injection E as <-; reflexivity|]. destruct (sum_ints _); [|discriminate]. injection E as <-. reflexivity.
-  - rewrite (extremum_typed _ _ _ _ _ (col_vals_typed s i rows A) eq_refl E). reflexivity.
-  - rewrite (extremum_typed _ _ _ _ _ (col_vals_typed s i rows A) eq_refl E). reflexivity.
+  - rewrite (extremum_typed _ (c_ty (nth i s dflt)) _ VNull v (col_vals_typed s i rows A) ltac:(destruct (c_ty (nth i s dflt)); reflexivity) E). reflexivity.
+  - rewrite (extremum_typed _ (c_ty (nth i s dflt)) _ VNull v (col_vals_typed s i rows A) ltac:(destruct (c_ty (nth i s dflt)); reflexivity) E). reflexivity.
   - destruct (col_vals i rows); [injection E as <-; reflexivity|]. destruct (sum_ints _); [|discriminate]. injection E as <-. reflexivity.
 Qed.
 Lemma agg_row_conform s rows : all_conform s rows -> forall aggs out, agg_row aggs rows = Some out ->
